@@ -179,6 +179,29 @@ theorem no_writeVal (c : Cfg) (s : St) (x : Cid) (v : Val) (sd : Option Addr) (h
   · exact key
   · exact key
 
+theorem no_clientUpdate (c : Cfg) (s : St) (x : Cid) (v : Val) (sd : Option Addr) (h : NoOrphan s) :
+    NoOrphan (clientUpdate c s x v sd) := by
+  simp only [clientUpdate]
+  have h2 : NoOrphan (runCallback c (setVal s x v) x v) := by
+    have h1 : NoOrphan (setVal s x v) := h
+    simp only [runCallback]; split
+    · exact h1
+    · exact no_writeVal c _ x v none h1
+    · exact no_writeVal c _ x _ none h1
+    · exact no_writeVal c _ _ _ none h1
+  have h3 : NoOrphan (match (runCallback c (setVal s x v) x v).value x with
+    | some u => if (runCallback c (setVal s x v) x v).value x ≠ s.value x then publish c (runCallback c (setVal s x v) x v) x u sd
+                else runCallback c (setVal s x v) x v
+    | none => runCallback c (setVal s x v) x v) := by
+    split
+    · split
+      · exact no_publish c _ _ _ _ h2
+      · exact h2
+    · exact h2
+  split
+  · exact h3
+  · exact h3
+
 theorem no_putSub (c : Cfg) (hr : c.fixResub = true) (s : St) (p : ObjId) (x : Cid) (ev : Option Bool) (h : NoOrphan s)
     (hA : InvA s) (hU : UniqInv s) (hp : p < s.nobj) (hpl : (s.obj p).lost = false) : NoOrphan (putSub c s p x ev) := by
   simp only [putSub]
@@ -254,7 +277,7 @@ theorem no_putChars (c : Cfg) (hr : c.fixResub = true) (s : St) (p : ObjId) (x :
   split
   · exact h1
   · simp only [putVal]
-    exact no_updObj _ p _ (no_discardStale c _ _ x (no_writeVal c _ x _ _ h1)) rfl (fun _ => Or.inr rfl)
+    exact no_updObj _ p _ (no_discardStale c _ _ x (no_clientUpdate c _ x _ _ h1)) rfl (fun _ => Or.inr rfl)
 
 theorem no_onReq (c : Cfg) (hr : c.fixResub = true) (s : St) (p : ObjId) (r : Req) (h : NoOrphan s) (hl : Live s p) :
     NoOrphan (onReq c s p r).1 := by
